@@ -199,6 +199,18 @@ class ndarray:
     def __rtruediv__(self, o): return self._bin(o, lambda a, b: _div(b, a))
     def __neg__(self): return ndarray([-a for a in self.d], self.shape)
     def __abs__(self): return ndarray([builtins.abs(a) for a in self.d], self.shape)
+
+    def _inplace(self, r):
+        # numpy's augmented assignments write into the array itself (aliases see the change)
+        if r is NotImplemented:
+            return r
+        self.d[:] = r.d
+        return self
+
+    def __iadd__(self, o): return self._inplace(self.__add__(o))
+    def __isub__(self, o): return self._inplace(self.__sub__(o))
+    def __imul__(self, o): return self._inplace(self.__mul__(o))
+    def __itruediv__(self, o): return self._inplace(self.__truediv__(o))
     def __lt__(self, o): return self._bin(o, lambda a, b: sbool(a < b))
     def __le__(self, o): return self._bin(o, lambda a, b: sbool(a <= b))
     def __gt__(self, o): return self._bin(o, lambda a, b: sbool(a > b))
@@ -515,6 +527,18 @@ def f_array(x, dtype=None):
     if dtype is not None:
         out = out.astype(dtype)
     return out
+
+
+def f_asarray(x, dtype=None):
+    """np.asarray: no copy when the argument already is an array of the requested kind."""
+    if isinstance(x, ndarray) and not isinstance(x, MaskedSel):
+        name = getattr(dtype, '__name__', dtype)
+        if dtype is None:
+            return x
+        if name in ('float', 'float64', 'float_') and x.d and builtins.all(
+                isinstance(v, (float, SymFloat, SymFP)) and not isinstance(v, SymFPInt) for v in x.d):
+            return x
+    return f_array(x, dtype)
 
 
 def f_full_like(a, fill, dtype=None):
@@ -939,6 +963,85 @@ def f_percentile(a, q, **kw):
     return res
 
 
+def f_cumsum(a, axis=None):
+    v = _flat(a)
+    out, t = [], None
+    for x in v:
+        t = x if t is None else t + x
+        out.append(t)
+    return ndarray(out)
+
+
+def f_argmax(a):
+    v = _flat(a)
+    if not v:
+        raise ValueError('attempt to get argmax of an empty sequence')
+    best = 0
+    for i in range(1, len(v)):
+        if bool(_lt(v[best], v[i])):
+            best = i
+    return best
+
+
+def f_nanmean(a):
+    v = _nonnan(a)
+    return nan if not v else f_sum(v) / len(v)
+
+
+def f_nansum(a):
+    v = _nonnan(a)
+    return f_sum(v) if v else 0.0
+
+
+def f_median(a):
+    return f_percentile(a, 50)
+
+
+def f_count_nonzero(a):
+    return core.count_true([_truthy(x) for x in _flat(a)])
+
+
+def f_logical_and(a, b):
+    if _scal(a) and _scal(b):
+        return _and(_truthy(a), _truthy(b))
+    return f_array(a)._bin(b if not _scal(b) else b, lambda x, y: _and(_truthy(x), _truthy(y)))
+
+
+def f_logical_or(a, b):
+    if _scal(a) and _scal(b):
+        return _or(_truthy(a), _truthy(b))
+    return f_array(a)._bin(b, lambda x, y: _or(_truthy(x), _truthy(y)))
+
+
+def f_logical_not(a):
+    return _elementwise(a, lambda x: _not(_truthy(x)))
+
+
+def f_append(a, b, axis=None):
+    return ndarray(_flat(a) + _flat(b))
+
+
+def f_hstack(parts):
+    return f_concatenate(parts)
+
+
+def f_empty(n, dtype=None):
+    return f_zeros(n)
+
+
+def f_atleast_1d(a):
+    v = _flat(a)
+    if builtins.any(isinstance(x, str) for x in v):
+        # fixed-width numpy string arrays (truncation on assignment / casting) are not modelled
+        raise ShimGap('numpy.atleast_1d on strings (fixed-width string dtype)')
+    return ndarray(v)
+
+
+def f_isfinite(a):
+    return _elementwise(a, lambda x: _not(_isnan(x)) if isinstance(x, (SymFloat, SymFP)) and not isinstance(x, core._Inf)
+                        else (isinstance(x, (int, float)) and x == x and x not in (inf, -inf)))
+
+
 class _Random:
     """numpy.random as an explicit state cell with an access log (C09). The state is the documented legacy tuple
     ('MT19937', key, pos, has_gauss, cached_gaussian); set_state also accepts the 3-tuple form, which resets the last
@@ -999,7 +1102,7 @@ def install():
     m.float64 = float
     m.float_ = float
     m.bool_ = bool
-    m.asarray = f_array
+    m.asarray = f_asarray
     m.__version__ = 'model'
     sys.modules['numpy'] = m
     return m
